@@ -45,7 +45,7 @@ def check_section_geometry(led, it, label, panel):
             led.fail(nm, label, {'code': str(defs[0][0]), 'spec': str(w)}, signature=alias)
 
 
-def run(led, model, fname, scalars, form, reads_extra=(), y1y2=False, replay=None, cone_alt=True, emits_dofs=None, counters=('c',)):
+def run(led, model, fname, scalars, form, reads_extra=(), y1y2=False, replay=None, cone_alt=True, emits_dofs=None, counters=('c',), collect=None):
     """form(panel, scal, geo) -> (ops, W, dofs, symmetric?)  describing the bilinear form  int g_A^T W g_B"""
     modname, num = MODEL_FILES[model]
     label = 'compmech/panel/models/%s.pyx:%s' % (modname, fname)
@@ -96,6 +96,8 @@ def run(led, model, fname, scalars, form, reads_extra=(), y1y2=False, replay=Non
     alt = {SLOPE_SIG: make_entry(+1)} if (model == 'kpanel' and cone_alt) else None
     n_emit = kcheck.check_kernel(led, it, label, res, make_entry(-1), num, row0, col0, m, n, expect_reads=reads,
                                  capacity_factor=lambda cnt: P.const(cnt) * m * m * n * n, alt_specs=alt,
-                                 extra_index_atoms=('section',) if model == 'kpanel' else (), replay=replay)
+                                 extra_index_atoms=('section',) if model == 'kpanel' else (), replay=replay, collect=collect)
+    if collect is not None:
+        collect.update(panel=panel, scal=scal, y12=y12, spec=make_entry(-1), num=num)
     led.solver_time('z3-feasibility', it.solver_time)
     return n_emit
